@@ -266,6 +266,17 @@ def fault_cases(tier):
             else:
                 for by in range(1, 7):
                     cases.append({"config": config, "table": table, "fault": {"kind": "cut-record", "row": row, "by": by, "drop_tail": row == len(table) - 1}})
+    # data of a single record: the fault is reported while the reader is still in its first physical line
+    single = [table[0]]
+    config = {"preset": "delimited", "header": 0, "fields": fields, "checks": []}
+    for encoding in ("utf-8", "ascii"):
+        cases.append({"config": config, "table": single, "fault": {"kind": "bad-byte", "row": 0, "encoding": encoding}})
+    cases.append({"config": config, "table": single, "fault": {"kind": "open-quote", "row": 0}})
+    for quote, props in (('"', [["Escape character", "\\"]]), ("'", [["Quote character", "'"]]), ('"', [["Line delimiter", "any"]])):
+        cases.append({"config": config, "table": single, "fault": {"kind": "open-quote", "row": 0, "quote": quote, "props": props}})
+    fixed_config = {"preset": "fixed", "header": 0, "fields": fields, "checks": []}
+    for by in range(1, 7):
+        cases.append({"config": fixed_config, "table": single, "fault": {"kind": "cut-record", "row": 0, "by": by, "drop_tail": True}})
     step = 64 if tier == "quick" else 1
     for preset in ("ods", "excel"):
         config = {"preset": preset, "header": 0, "fields": fields, "checks": []}
